@@ -6,6 +6,7 @@ package w13
 import (
 	"encoding/json"
 	"fmt"
+	"math/rand"
 	"os"
 	"path/filepath"
 	"sort"
@@ -108,9 +109,91 @@ func Revisions(j *job.Job, s *job.Sink) {
 			continue
 		}
 		checkHeaders(j, s, c, hs, imp, importer)
+		if c%4 == 0 {
+			checkIncludes(j, s, c, prng.For(j.Seed, "C13", "includes", c))
+		}
 		if c%500 == 0 {
 			s.Sample(1, hs)
 		}
+	}
+}
+
+// checkIncludes: several revisions of one submodule are loaded next to a module that
+// includes it with or without a revision-date, in every load order. The include must be
+// bound to exactly the named revision (to the latest when none is named), and the
+// module's tree must hold that revision's data node and typedef and no other's.
+func checkIncludes(j *job.Job, s *job.Sink, c int64, r *rand.Rand) {
+	dates := []string{"2019-05-05", "2020-01-01", "2020-12-31", "2021-06-01"}
+	r.Shuffle(len(dates), func(a, b int) { dates[a], dates[b] = dates[b], dates[a] })
+	n := 2 + r.Intn(2)
+	revs := dates[:n]
+	types := []string{"int8", "string", "boolean", "uint32"}
+	var texts []string
+	for i, d := range revs {
+		texts = append(texts, fmt.Sprintf("submodule s { belongs-to m { prefix m; } revision %s; typedef st { type %s; } leaf mark%d { type st; } }", d, types[i], i))
+	}
+	latest := 0
+	for i, d := range revs {
+		if d > revs[latest] {
+			latest = i
+		}
+	}
+	want := latest
+	inc := "include s;"
+	if r.Intn(3) > 0 {
+		want = r.Intn(n)
+		inc = fmt.Sprintf("include s { revision-date %s; }", revs[want])
+	}
+	texts = append(texts, fmt.Sprintf("module m { namespace \"urn:m\"; prefix m; %s leaf top { type st; } }", inc))
+	desc := map[string]any{"texts": texts}
+	s.Current(c, desc)
+	s.Count("include_sets", 1)
+	s.Count("nontrivial", 1)
+	reported := map[string]bool{}
+	bad := func(class, detail string) {
+		if !reported[class] {
+			reported[class] = true
+			s.Violation(c, j.CaseID(c), "C13.includes", class, detail, desc, nil)
+		}
+	}
+	for _, p := range allPerms(len(texts)) {
+		s.Count("load_orders", 1)
+		ms := yang.NewModules()
+		ok := true
+		for _, i := range p {
+			if err := ms.Parse(texts[i], fmt.Sprintf("f%d.yang", i)); err != nil {
+				bad("include-load-rejected", fmt.Sprintf("load order %v: %v", p, err))
+				ok = false
+			}
+		}
+		if !ok {
+			continue
+		}
+		if errs := ms.Process(); len(errs) > 0 {
+			bad("include-process-error", fmt.Sprintf("load order %v: %v", p, errs[0]))
+			continue
+		}
+		m := ms.Modules["m"]
+		got := m.Include[0].Module
+		if got == nil || len(got.Leaf) == 0 || got.Leaf[0].Name != fmt.Sprintf("mark%d", want) {
+			g := "nothing"
+			if got != nil {
+				g = got.FullName()
+			}
+			bad("include-binds-wrong-revision", fmt.Sprintf("load order %v: %q bound to %s, want s@%s", p, inc, g, revs[want]))
+			continue
+		}
+		e := yang.ToEntry(m)
+		for i := range revs {
+			_, present := e.Dir[fmt.Sprintf("mark%d", i)]
+			if present != (i == want) {
+				bad("include-merges-wrong-revision", fmt.Sprintf("load order %v: %q: data node of s@%s present=%v", p, inc, revs[i], present))
+			}
+		}
+		if t := e.Dir["top"]; t == nil || t.Type == nil || t.Type.Kind.String() != types[want] {
+			bad("include-typedef-of-wrong-revision", fmt.Sprintf("load order %v: %q: leaf top does not have the type of s@%s", p, inc, revs[want]))
+		}
+		s.Count("includes_checked", 1)
 	}
 }
 
